@@ -926,8 +926,8 @@ func c14SpawnShared(c *Ctx) {
 				case *ssa.Go:
 					cl, _ = x.Call.Value.(*ssa.MakeClosure)
 				case *ssa.Call:
-					if cal := calleeOf(&x.Call); cal != nil && qualName(cal) == "time.AfterFunc" && len(x.Call.Args) == 2 {
-						cl, _ = x.Call.Args[1].(*ssa.MakeClosure)
+					if cb := c.P.afterFuncArg(&x.Call); cb != nil {
+						cl, _ = cb.(*ssa.MakeClosure)
 					}
 				}
 				if cl != nil && c.P.TargetOf(cl.Fn.(*ssa.Function)) != origin(cl.Fn.(*ssa.Function)) {
@@ -944,8 +944,8 @@ func c14SpawnShared(c *Ctx) {
 							target, handed = origin(f), x.Call.Args
 						}
 					case *ssa.Call:
-						if cal := calleeOf(&x.Call); cal != nil && qualName(cal) == "time.AfterFunc" && len(x.Call.Args) == 2 {
-							if mc, isMC := x.Call.Args[1].(*ssa.MakeClosure); isMC {
+						if cb := c.P.afterFuncArg(&x.Call); cb != nil {
+							if mc, isMC := cb.(*ssa.MakeClosure); isMC {
 								cl = mc
 							}
 						}
